@@ -82,6 +82,19 @@ def control(ch, cfg, ns):
         if ch.p(0.5):
             attrs['placeholder'] = pick_value(ch, ('', 'hint'), hostile)
         ch_nodes.append(T(ch.pick(('', '\n', ' ', 'x', RTL, '\n\n'))))
+        if ch.p(0.25):
+            # content wrapped in (or split by) child elements and comments: html.parser keeps markup inside a textarea
+            # as elements, and any tree can be assembled that way through the API
+            for _ in range(ch.i(1, 2)):
+                r = ch.i(0, 3)
+                if r == 0:
+                    ch_nodes.append(E('b', {}, [T(ch.pick(('hi', '', '\n', ' ')))], ns=ns))
+                elif r == 1:
+                    ch_nodes.append(E('span', {}, [E('i', {}, [T(ch.pick(('deep', '')))], ns=ns)], ns=ns))
+                elif r == 2:
+                    ch_nodes.append(C('note'))
+                else:
+                    ch_nodes.append(T(ch.pick(('', '\n', 'y'))))
     elif kind in ('progress', 'meter'):
         if ch.p(0.5):
             attrs['value'] = pick_value(ch, ('0.5', '', 'x'), hostile)
